@@ -33,6 +33,7 @@ typedef struct {
 	unsigned int total_out_lo32;
 	unsigned int total_out_hi32;
 	void *state;
+	int toy_bad;	/* sticky error, see zlib.h */
 	toy_enc_t toy_enc;
 	toy_dec_t toy_dec;
 } bz_stream;
@@ -48,6 +49,7 @@ static int BZ2_bzCompressInit(bz_stream *s, int level, int verbosity, int wf)
 static int BZ2_bzDecompressInit(bz_stream *s, int verbosity, int small)
 {
 	(void)verbosity; (void)small;
+	s->toy_bad = 0;
 	s->total_in_lo32 = s->total_in_hi32 = s->total_out_lo32 = s->total_out_hi32 = 0;
 	toy_dec_init(&s->toy_dec);
 	return BZ_OK;
@@ -76,12 +78,15 @@ static int BZ2_bzCompress(bz_stream *s, int action)
 static int BZ2_bzDecompress(bz_stream *s)
 {
 	size_t c, p;
-	int r = toy_dec_step(&s->toy_dec, (unsigned char *)s->next_in, s->avail_in,
+	int r;
+	if (s->toy_bad)
+		return BZ_DATA_ERROR;
+	r = toy_dec_step(&s->toy_dec, (unsigned char *)s->next_in, s->avail_in,
 			     (unsigned char *)s->next_out, s->avail_out, 0, &c, &p);
 	s->next_in += c; s->avail_in -= c; s->total_in_lo32 += c;
 	s->next_out += p; s->avail_out -= p; s->total_out_lo32 += p;
 	if (r == TOY_END) return BZ_STREAM_END;
-	if (r == TOY_ERR) return toy_bz_errcode();
+	if (r == TOY_ERR) { s->toy_bad = 1; return toy_bz_errcode(); }
 	return BZ_OK;
 }
 
